@@ -20,6 +20,9 @@ import (
 
 // countCtx reports done from the `at`-th poll on (0-based); at < 0: never.
 type countCtx struct {
+	nodesFn  func() uint64 // node counter of the search, read at every poll
+	lastN    uint64
+	maxGap   uint64 // largest number of nodes counted between two consecutive polls
 	n        int
 	at       int
 	open     chan struct{}
@@ -35,6 +38,13 @@ func newCountCtx(at int) *countCtx {
 }
 func (c *countCtx) Deadline() (time.Time, bool) { return time.Time{}, false }
 func (c *countCtx) Done() <-chan struct{} {
+	if c.nodesFn != nil {
+		cur := c.nodesFn()
+		if cur-c.lastN > c.maxGap {
+			c.maxGap = cur - c.lastN
+		}
+		c.lastN = cur
+	}
 	k := c.n
 	c.n++
 	if c.at >= 0 && k >= c.at {
@@ -64,6 +74,7 @@ type searchResult struct {
 	completed  int // info depth lines printed before the cancellation was noticed
 	timedOut   bool
 	panicked   bool
+	maxGap     uint64
 }
 
 func setupSearch(posArg string, moves []string) (*search.Search, bool) {
@@ -84,6 +95,8 @@ func setupSearch(posArg string, moves []string) (*search.Search, bool) {
 func runSearch(s *search.Search, depth, cancelAt int) searchResult {
 	var r searchResult
 	ctx := newCountCtx(cancelAt)
+	ctx.nodesFn = s.VerifNodes
+	ctx.lastN = s.VerifNodes()
 	ctx.onCancel = func() {
 		r.cut = true
 		r.nodesAtCut = s.VerifNodes()
@@ -109,6 +122,7 @@ func runSearch(s *search.Search, depth, cancelAt int) searchResult {
 	}
 	r.nodes = s.VerifNodes()
 	r.polls = ctx.n
+	r.maxGap = ctx.maxGap
 	for _, l := range strings.Split(out, "\n") {
 		l = strings.TrimRight(l, "\r ")
 		if m := infoRe.FindStringSubmatch(l); m != nil {
@@ -179,58 +193,35 @@ func execSearch(args []string) string {
 		if r.timedOut || r.panicked {
 			return "p.terminated=" + b2s(!r.timedOut) + " p.nopanic=" + b2s(!r.panicked)
 		}
-		find := func(p *position.Position, u string) (*position.Position, bool) {
-			for _, lm := range legalMoves(p) {
-				if lm.m.String() == u {
-					q := lm.pos
-					return &q, true
-				}
+		return judgeByEngine(&root, r, depth)
+	case "deepseq":
+		// deepseq <k> {<pos> <nmoves> <moves…> <depth> <cancelAt>}^k: Go-only searches sharing the tables; the LAST answer is judged with the engine's own generator
+		k, _ := strconv.Atoi(args[1])
+		rest := args[2:]
+		transpositiontable.Reset()
+		var last searchResult
+		var lastRoot position.Position
+		lastDepth := 0
+		for i := 0; i < k; i++ {
+			posArg := rest[0]
+			nm, _ := strconv.Atoi(rest[1])
+			moves := rest[2 : 2+nm]
+			rest = rest[2+nm:]
+			depth, _ := strconv.Atoi(rest[0])
+			cancelAt, _ := strconv.Atoi(rest[1])
+			rest = rest[2:]
+			s, ok := setupSearch(posArg, moves)
+			if !ok {
+				return "res=badgame"
 			}
-			return nil, false
-		}
-		lms := legalMoves(&root)
-		bestLegal := false
-		if len(lms) == 0 {
-			bestLegal = r.best == move.NullMove
-		} else {
-			_, bestLegal = find(&root, r.best.String())
-		}
-		pvLegal := true
-		for _, pv := range r.pvs {
-			p := root
-			for _, u := range strings.Split(pv, ",") {
-				if u == "" {
-					continue
-				}
-				q, ok := find(&p, u)
-				if !ok {
-					pvLegal = false
-					break
-				}
-				p = *q
+			lastRoot = s.Pos
+			lastDepth = depth
+			last = runSearch(s, depth, cancelAt)
+			if last.timedOut || last.panicked {
+				return "p.terminated=" + b2s(!last.timedOut) + " p.nopanic=" + b2s(!last.panicked)
 			}
 		}
-		bestFirst := true
-		if len(r.pvs) > 0 {
-			last := strings.Split(r.pvs[len(r.pvs)-1], ",")
-			if last[0] != "" {
-				bestFirst = last[0] == r.best.String()
-			}
-		}
-		mateOk := true
-		hasMate := false
-		for _, lm := range lms {
-			q := lm.pos
-			if q.IsInCheck(q.SideToMove) && len(legalMoves(&q)) == 0 {
-				hasMate = true
-			}
-		}
-		if hasMate {
-			q, ok := find(&root, r.best.String())
-			mateOk = ok && q.IsInCheck(q.SideToMove) && len(legalMoves(q)) == 0
-		}
-		return fmt.Sprintf("p.terminated=1 p.nopanic=1 p.bestlegal=%s p.pvlegal=%s p.bestfirst=%s p.mateok=%s p.depthok=%s",
-			b2s(bestLegal), b2s(pvLegal), b2s(bestFirst), b2s(mateOk), b2s(r.maxDepth <= depth))
+		return judgeByEngine(&lastRoot, last, lastDepth)
 	case "judge":
 		// the facts are in the operation itself (they were produced by the Go run that generated it); constant expectations
 		return "bestlegal=1 pvlegal=1 bestfirst=1 mateok=1"
@@ -259,7 +250,7 @@ func searchOps(o *Out, seed uint64, n int, tier string, corpus string) {
 		if rng.Intn(3) == 0 {
 			fen := ps.randomMaterial()
 			q, err := position.NewFromFen(fen)
-			if err != nil || !checkShape(q) || q.IsInCheck(types.SwitchColor(q.SideToMove)) || len(legalMoves(q)) == 0 {
+			if err != nil || !checkShape(q) || inCheckSafe(q, types.SwitchColor(q.SideToMove)) || len(legalMoves(q)) == 0 {
 				continue
 			}
 			p = *q
@@ -280,7 +271,7 @@ func searchOps(o *Out, seed uint64, n int, tier string, corpus string) {
 				res = false
 			}
 		}()
-		if p.IsInCheck(types.SwitchColor(p.SideToMove)) {
+		if inCheckSafe(p, types.SwitchColor(p.SideToMove)) {
 			return false
 		}
 		for _, lm := range legalMoves(p) {
@@ -300,7 +291,7 @@ func searchOps(o *Out, seed uint64, n int, tier string, corpus string) {
 	for tries := 0; len(matePool) < 12 && tries < 400; tries++ {
 		fen := ps.randomMaterial()
 		q, err := position.NewFromFen(fen)
-		if err != nil || !checkShape(q) || q.IsInCheck(types.SwitchColor(q.SideToMove)) {
+		if err != nil || !checkShape(q) || inCheckSafe(q, types.SwitchColor(q.SideToMove)) {
 			continue
 		}
 		ps.playout(fen, *q, 8, func(r *position.Position, _ string, mv []string) bool {
@@ -312,6 +303,34 @@ func searchOps(o *Out, seed uint64, n int, tier string, corpus string) {
 		})
 	}
 	o.StatN("mate_in_one_pool", len(matePool))
+	// Go-only sequences on the mate-in-one pool: deeper predecessor searches first (their tables are what the mate search finds),
+	// then the mate position at depths 1..4 with the cancellation landing at many different polls
+	nseq := n
+	if nseq > 4000 {
+		nseq = 4000
+	}
+	for i := 0; i < nseq && len(matePool) > 0; i++ {
+		g := matePool[rng.Intn(len(matePool))]
+		var segs []string
+		if len(g.moves) >= 2 && rng.Intn(3) != 0 {
+			back := 1 + rng.Intn(2)
+			segs = append(segs, fmt.Sprintf("%s %d %s %d -1", g.pos, len(g.moves)-back, strings.Join(g.moves[:len(g.moves)-back], " "), 2+rng.Intn(4)))
+		} else if rng.Intn(2) == 0 {
+			segs = append(segs, fmt.Sprintf("%s %d %s %d -1", g.pos, len(g.moves), strings.Join(g.moves, " "), 1+rng.Intn(4)))
+		}
+		cancel := -1
+		switch rng.Intn(4) {
+		case 0:
+			cancel = rng.Intn(6)
+		case 1:
+			cancel = rng.Intn(600)
+		case 2:
+			cancel = rng.Intn(5000)
+		}
+		segs = append(segs, fmt.Sprintf("%s %d %s %d %d", g.pos, len(g.moves), strings.Join(g.moves, " "), 1+rng.Intn(4), cancel))
+		o.Run(strings.Join(strings.Fields(fmt.Sprintf("deepseq %d %s", len(segs), strings.Join(segs, " "))), " "))
+		o.Stat("mate_sequences_go_only")
+	}
 	count := 0
 	unit := 0
 	for count < n {
@@ -375,7 +394,7 @@ func searchOps(o *Out, seed uint64, n int, tier string, corpus string) {
 			// depth-1 fallback search when no iteration had produced an answer yet
 			stopnow := !r.cut || r.completed == 0 || r.nodes == r.nodesAtCut
 			o.Emit(fmt.Sprintf("facts search depth=%d cancel=%d", depth, cancelAt),
-				fmt.Sprintf("p.terminated=%s p.depthok=%s p.stopnow=%s p.nopanic=%s", b2s(!r.timedOut), b2s(r.maxDepth <= depth), b2s(stopnow), b2s(!r.panicked)))
+				fmt.Sprintf("p.terminated=%s p.depthok=%s p.stopnow=%s p.nopanic=%s p.nextnode=%s", b2s(!r.timedOut), b2s(r.maxDepth <= depth), b2s(stopnow), b2s(!r.panicked), b2s(r.maxGap <= 1)))
 			if r.cut {
 				o.Stat("cancelled_searches")
 			}
@@ -407,14 +426,14 @@ func deepOps(o *Out, seed uint64, n int, corpus string) {
 		case 0:
 			fen := ps.corpus[rng.Intn(len(ps.corpus))]
 			q, err := position.NewFromFen(fen)
-			if err != nil || q.IsInCheck(types.SwitchColor(q.SideToMove)) {
+			if err != nil || inCheckSafe(q, types.SwitchColor(q.SideToMove)) {
 				continue
 			}
 			p, start = *q, hexOf(fen)
 		case 1:
 			fen := ps.randomMaterial()
 			q, err := position.NewFromFen(fen)
-			if err != nil || !checkShape(q) || q.IsInCheck(types.SwitchColor(q.SideToMove)) {
+			if err != nil || !checkShape(q) || inCheckSafe(q, types.SwitchColor(q.SideToMove)) {
 				continue
 			}
 			p, start = *q, hexOf(fen)
@@ -432,4 +451,61 @@ func deepOps(o *Out, seed uint64, n int, corpus string) {
 		o.Stat(fmt.Sprintf("deep_depth_%d", depth))
 		count++
 	}
+}
+
+// judgeByEngine replays the answer and every printed PV with the engine's own legal move generator.
+func judgeByEngine(rootp *position.Position, r searchResult, depth int) string {
+	root := *rootp
+	find := func(p *position.Position, u string) (*position.Position, bool) {
+		for _, lm := range legalMoves(p) {
+			if lm.m.String() == u {
+				q := lm.pos
+				return &q, true
+			}
+		}
+		return nil, false
+	}
+	lms := legalMoves(&root)
+	bestLegal := false
+	if len(lms) == 0 {
+		bestLegal = r.best == move.NullMove
+	} else {
+		_, bestLegal = find(&root, r.best.String())
+	}
+	pvLegal := true
+	for _, pv := range r.pvs {
+		p := root
+		for _, u := range strings.Split(pv, ",") {
+			if u == "" {
+				continue
+			}
+			q, ok := find(&p, u)
+			if !ok {
+				pvLegal = false
+				break
+			}
+			p = *q
+		}
+	}
+	bestFirst := true
+	if len(r.pvs) > 0 {
+		last := strings.Split(r.pvs[len(r.pvs)-1], ",")
+		if last[0] != "" {
+			bestFirst = last[0] == r.best.String()
+		}
+	}
+	mateOk := true
+	hasMate := false
+	for _, lm := range lms {
+		q := lm.pos
+		if q.IsInCheck(q.SideToMove) && len(legalMoves(&q)) == 0 {
+			hasMate = true
+		}
+	}
+	if hasMate {
+		q, ok := find(&root, r.best.String())
+		mateOk = ok && q.IsInCheck(q.SideToMove) && len(legalMoves(q)) == 0
+	}
+	return fmt.Sprintf("p.terminated=1 p.nopanic=1 p.bestlegal=%s p.pvlegal=%s p.bestfirst=%s p.mateok=%s p.depthok=%s",
+		b2s(bestLegal), b2s(pvLegal), b2s(bestFirst), b2s(mateOk), b2s(r.maxDepth <= depth))
 }
